@@ -84,4 +84,19 @@ CLt(z, w) == QLt(z[1], w[1])
 CEq(z, w) == z = w
 CBool(b) == IF b THEN C1 ELSE C0
 CSignum(z) == IF CDef(z) /\ CIsReal(z) THEN CI(QSign(z[1])) ELSE CU
+
+\* Elementary functions.  Their values are rational only at one point each; there the value and the first two
+\* derivatives are integers:  MathAt(f) = <<point p, f(p), f'(p), f''(p)>>.  Anywhere else the value is outside
+\* the rational fragment (undefined, not compared).
+MathFns == {"exp", "ln", "sin", "cos", "tan", "sinh", "cosh", "tanh", "asin", "atan"}
+MathAt(f) == CASE f = "exp"  -> <<0, 1, 1, 1>>
+               [] f = "ln"   -> <<1, 0, 1, 0 - 1>>
+               [] f = "sin"  -> <<0, 0, 1, 0>>
+               [] f = "cos"  -> <<0, 1, 0, 0 - 1>>
+               [] f = "tan"  -> <<0, 0, 1, 0>>
+               [] f = "sinh" -> <<0, 0, 1, 0>>
+               [] f = "cosh" -> <<0, 1, 0, 1>>
+               [] f = "tanh" -> <<0, 0, 1, 0>>
+               [] f = "asin" -> <<0, 0, 1, 0>>
+               [] f = "atan" -> <<0, 0, 1, 0>>
 =============================================================================
